@@ -1,0 +1,31 @@
+//go:build verif
+
+package ctfe
+
+import (
+	"context"
+
+	"github.com/google/certificate-transparency-go/trillian/ctfe/cache"
+	"github.com/google/certificate-transparency-go/trillian/ctfe/storage"
+	"github.com/google/certificate-transparency-go/trillian/util"
+)
+
+// NewInstanceForSim builds an Instance through the regular setUpLogInfo path
+// and then swaps in the given issuance chain storage / cache and time source.
+// The exported SetUpInstance can only open MySQL / PostgreSQL connections for
+// external chain storage (and exits the process on failure), which a
+// single-process simulation cannot use. opts.Validated must select the
+// Trillian gRPC chain storage backend; st == nil keeps the direct service.
+func NewInstanceForSim(ctx context.Context, opts InstanceOptions, st storage.IssuanceChainStorage, c cache.IssuanceChainCache, ts util.TimeSource) (*Instance, error) {
+	li, err := setUpLogInfo(ctx, opts)
+	if err != nil {
+		return nil, err
+	}
+	if st != nil {
+		li.issuanceChainService = newIndirectIssuanceChainService(st, c)
+	}
+	if ts != nil {
+		li.TimeSource = ts
+	}
+	return &Instance{Handlers: li.Handlers(opts.Validated.Config.Prefix), STHGetter: li.sthGetter, li: li}, nil
+}
